@@ -41,6 +41,14 @@ pub static MAX_STATE_LEN: AtomicU64 = AtomicU64::new(0);
 /// High-water mark of a move buffer.
 pub static MAX_MOVES_LEN: AtomicU64 = AtomicU64::new(0);
 
+/// Polls since the driver was entered (reset by `search_begin`).
+pub static POLLS_THIS_SEARCH: AtomicU64 = AtomicU64::new(0);
+/// Flip the flag once a single search has made this many polls (0 = never). Unlike `STOP_AT`
+/// this re-arms for every call of the driver: a deterministic stand-in for a time budget.
+pub static STOP_EVERY: AtomicU64 = AtomicU64::new(0);
+/// Number of times the driver was entered.
+pub static SEARCHES: AtomicU64 = AtomicU64::new(0);
+
 static SEQ: AtomicU64 = AtomicU64::new(0);
 static LOG: Mutex<Option<std::fs::File>> = Mutex::new(None);
 
@@ -82,10 +90,20 @@ pub fn node_poll(table: &mut TranspositionTable, flag: &AtomicBool, real_depth: 
         POLLS_BEYOND_LIMIT.fetch_add(1, SeqCst);
         flag.store(false, SeqCst);
     }
+    let every = STOP_EVERY.load(SeqCst);
+    if every != 0 && POLLS_THIS_SEARCH.fetch_add(1, SeqCst) + 1 >= every {
+        flag.store(false, SeqCst);
+    }
     let budget = POLL_BUDGET.load(SeqCst);
     if budget != 0 && n >= budget && !BUDGET_HIT.swap(true, SeqCst) {
         flag.store(false, SeqCst);
     }
+}
+
+/// Called when the iterative-deepening driver is entered.
+pub fn search_begin() {
+    POLLS_THIS_SEARCH.store(0, SeqCst);
+    SEARCHES.fetch_add(1, SeqCst);
 }
 
 /// Called at the top of every iteration of the iterative-deepening driver.
